@@ -444,7 +444,7 @@ PID_KINDS = ['absent', 'empty', 'blank', 'garbage', 'negative', 'zero',
 
 
 def gen_pidfile(rng):
-    kind = rng.choice(PID_KINDS + ['absent'] * 6)
+    kind = rng.choice(PID_KINDS + ['absent'] * 5 + ['own', 'own'])
     if kind == 'absent':
         return None
     text = {'empty': '', 'blank': ' \n', 'garbage': 'not-a-pid',
